@@ -1,5 +1,6 @@
 import SqlizeModel.Proofs.SpecTable
 import SqlizeModel.Proofs.SpecJustified
+import SqlizeModel.Proofs.Textual
 
 namespace Sqlize
 open Spec
@@ -172,6 +173,7 @@ theorem loaded_table_spec (g : Globals) (hg : g.dialect = .mysql) (rc : Bool)
       ∃ cs is, td.migrationColumnUp g = .ok (cs, []) ∧ (∀ dc, td.migrationIndexUp g dc = .ok is) ∧
         (∀ dc, td.migrationForeignKeyUp dc = []) ∧
         (∀ dbO : DB, dbO.has t = false → ∀ s ∈ cs ++ is, justified dbO dbN s = true) ∧
+        (t ≠ "" → ∀ s ∈ cs ++ is, s.vocab = true) ∧
         ∀ db : DB, (db.map (·.name)).Nodup → db.has t = false →
           ∃ db' tb', execAll false db (cs ++ is) = some db' ∧ db'.find t = some tb' ∧ tb'.equiv tbN = true ∧
             (∀ u, u ≠ t → db'.find u = db.find u) ∧ db'.map (·.name) = db.map (·.name) ++ [t] := by
@@ -283,7 +285,36 @@ theorem loaded_table_spec (g : Globals) (hg : g.dialect = .mysql) (rc : Bool)
         have h2 := idx_some_of_mem dbN t tbN hfn hndS _ hm
         have h2 : dbN.idx t i.name = some i.toSpec := h2
         rw [h1, h2]; rfl
-  refine ⟨i, td, hmn, hnmn, hact, _, _, hcs, his, hfs, hjust, ?_⟩
+  have hvocab : t ≠ "" → ∀ s ∈ [Stmt.createTable t
+      ((td.cols.foldl (fun m c => max m c.name.utf8ByteSize) (((td.cols[0]?).map (·.name.utf8ByteSize)).getD 0)))
+      (td.cols.map (fun c => c.colDef false)) []] ++ td.idxs.flatMap (fun i => i.upStmts t), s.vocab = true := by
+    intro ht s hs
+    have ht' : (t != "") = true := by simpa using ht
+    rcases List.mem_append.mp hs with h | h
+    · rw [List.mem_singleton.mp h]
+      unfold Stmt.vocab
+      simp only [Stmt.elemSafe, Stmt.colSafe, Stmt.table, ht', Stmt.textual, Stmt.plainOpts, Bool.true_and]
+      rw [List.all_eq_true]
+      intro cd hcd
+      obtain ⟨cd0, hcd0, rfl⟩ := List.mem_map.mp hcd
+      obtain ⟨c, hc, rfl⟩ := List.mem_map.mp hcd0
+      exact plain_textual _ ((hpln td hmemn).opts c hc)
+    · obtain ⟨i, hi, hsi⟩ := List.mem_flatMap.mp h
+      have hl := hlive i hi
+      unfold Index.upStmts at hsi
+      rw [hl.add] at hsi
+      simp only at hsi
+      by_cases hp : i.name = pkName
+      · have hisPk : i.isPk = true := by rw [hl.pk, hp]; simp
+        rw [if_pos hisPk] at hsi
+        rw [List.mem_singleton.mp hsi]
+        simp [Stmt.vocab, Stmt.elemSafe, Stmt.colSafe, Stmt.table, ht', Stmt.textual, Stmt.plainOpts]
+      · have hisPk : i.isPk = false := by rw [hl.pk]; simpa using hp
+        rw [if_neg (by simp [hisPk])] at hsi
+        have hp' : (i.name != pkName) = true := by simpa using hp
+        rw [List.mem_singleton.mp hsi]
+        simp [Stmt.vocab, Stmt.elemSafe, ht', hp', Stmt.textual, Stmt.plainOpts]
+  refine ⟨i, td, hmn, hnmn, hact, _, _, hcs, his, hfs, hjust, hvocab, ?_⟩
   intro db hnd hnot
   -- CREATE TABLE
   have hplain := (hpln td hmemn).opts
@@ -424,6 +455,7 @@ theorem created_table_spec (g : Globals) (hg : g.dialect = .mysql) (rc : Bool)
     ∃ td ∈ d.tables, td.name = t ∧ td.action = .add ∧
       ∃ cs is, td.migrationColumnUp g = .ok (cs, []) ∧ td.migrationIndexUp g [] = .ok is ∧
         td.migrationForeignKeyUp [] = [] ∧ (∀ s ∈ cs ++ is, justified dbO dbN s = true) ∧
+        (t ≠ "" → ∀ s ∈ cs ++ is, s.vocab = true) ∧
         ∀ db : DB, (db.map (·.name)).Nodup → db.has t = false →
           ∃ db' tb', execAll false db (cs ++ is) = some db' ∧ db'.find t = some tb' ∧ tb'.equiv tbN = true ∧
             (∀ u, u ≠ t → db'.find u = db.find u) ∧ db'.map (·.name) = db.map (·.name) ++ [t] := by
@@ -444,7 +476,7 @@ theorem created_table_spec (g : Globals) (hg : g.dialect = .mysql) (rc : Bool)
     have : readScript g {} new = .ok mn := by unfold readScript; rw [hg]; exact hmn'
     rw [this] at hln; exact Except.ok.inj hln
   subst this
-  obtain ⟨i, td, hmn, hnmn, hact, cs, is, hcs, his, hfs, hjust, hrun⟩ :=
+  obtain ⟨i, td, hmn, hnmn, hact, cs, is, hcs, his, hfs, hjust, hvoc, hrun⟩ :=
     loaded_table_spec g hg rc new dbN hn hpn hen mn hmn' t tbN hfn hnofk
   have hgo : mo.tblIdx.get? t = none := hro.unknown hnew
   unfold Migration.diff at hd
@@ -456,6 +488,6 @@ theorem created_table_spec (g : Globals) (hg : g.dialect = .mysql) (rc : Bool)
   obtain ⟨extra, hext⟩ := Migration.diffTables2_prefix mo.tables _ d hd
   have htd_mem : td' ∈ d.tables := by
     rw [hext]; exact List.mem_append_left _ (List.mem_of_getElem? htd)
-  exact ⟨td', htd_mem, hnmn, hact, cs, is, hcs, his [], hfs [], hjust dbO hnew, hrun⟩
+  exact ⟨td', htd_mem, hnmn, hact, cs, is, hcs, his [], hfs [], hjust dbO hnew, hvoc, hrun⟩
 
 end Sqlize
